@@ -288,6 +288,27 @@ func addSyncIntrinsics(m map[string]intrinsicFn) {
 		return true
 	}
 
+	// sync.Pool: Get always misses (a pool may drop anything at any time), Put drops
+	m["(*sync.Pool).Get"] = func(fr *frame, a []value) value {
+		r := fr.r
+		p := a[0].(*value)
+		st := r.e.namedType("sync", "Pool").Underlying().(*types.Struct)
+		for i := 0; i < st.NumFields(); i++ {
+			if st.Field(i).Name() == "New" {
+				f := (*p).(structure)[i]
+				if c, ok := f.(*closure); ok && c != nil {
+					return r.call(fr, token.NoPos, c, nil)
+				}
+				if f != nil {
+					if _, isNilFn := f.(*closure); !isNilFn {
+						return r.call(fr, token.NoPos, f, nil)
+					}
+				}
+			}
+		}
+		return iface{}
+	}
+	m["(*sync.Pool).Put"] = func(fr *frame, a []value) value { return nil }
 	m["runtime.Gosched"] = func(fr *frame, a []value) value { fr.r.yield(); return nil }
 	m["runtime.GOMAXPROCS"] = func(fr *frame, a []value) value { return int64(8) }
 	m["runtime.NumCPU"] = func(fr *frame, a []value) value { return int64(8) }
